@@ -11,6 +11,7 @@
    `place` is `Panic` too, so "never Panic" also says the Go loop terminates.
    No proofs here. *)
 Require Import Bytes Utf8 WireOut Ctcp State.
+Require Format.
 Open Scope N_scope.
 
 Definition Zlen (s : str) : Z := Z.of_nat (length s).
@@ -417,6 +418,23 @@ Definition reset_conn (s : state) : state :=
 
 (* Send (GlobalFormat off): the events queued for the send loop, in order *)
 Definition send (s : state) (e : sevent) : res (list sevent) := event_split e (max_event_length s).
+
+(* Send with Config.GlobalFormat: Fmt on the last parameter of PRIVMSG/TOPIC/NOTICE (when
+   there is one and it is not empty) BEFORE the split, so that e.g. {ctcp}ACTION ...{ctcp}
+   is split as the CTCP it becomes.  Fmt is Model/Format.v (C20). *)
+Definition TOPIC : str := Eval vm_compute in bs "TOPIC".
+Definition global_format (e : sevent) : sevent :=
+  match se_params e with
+  | [] => e
+  | _ =>
+    match last (se_params e) [] with
+    | [] => e
+    | l => if is_msg_cmd (se_command e) || streqb (se_command e) TOPIC
+           then with_params e (set_last (se_params e) (Format.fmt l)) else e
+    end
+  end.
+Definition send_gf (s : state) (e : sevent) : res (list sevent) :=
+  event_split (global_format e) (max_event_length s).
 
 Definition message (target text : str) : sevent := cmd_event PRIVMSG [target; text].
 Definition notice_ev (target text : str) : sevent := cmd_event NOTICE [target; text].
